@@ -173,6 +173,15 @@ let etoks_s (l : CssSpec.etok list) : string = "(" ^ S.concat " " (L.map etok_s 
 
 let b01 b = if b then "1" else "0"
 
+(* numeric tokens of the expected streams with their source spelling (C10) *)
+let nums_s (l : CssSpec.etok list) : string =
+  "(" ^ S.concat " " (L.filter_map (fun e ->
+    match e.CssSpec.e_tok with
+    | CssTok.TNum n -> Some ("(n " ^ quote_str n.CssTok.n_src ^ ")")
+    | CssTok.TPct n -> Some ("(pc " ^ quote_str n.CssTok.n_src ^ ")")
+    | CssTok.TDim (n, u) -> Some ("(dim " ^ quote_str n.CssTok.n_src ^ " " ^ quote_str u ^ ")")
+    | _ -> None) l) ^ ")"
+
 let () =
   register "css" (function
     | opts :: tree :: rest ->
@@ -203,7 +212,8 @@ let () =
            @ conf_impl @
            [ "(" ^ S.concat " " (L.map (fun k -> string_of_int (int_of_n k)) sp.CssSpec.so_warn) ^ ")";
              "(" ^ S.concat " " (L.map quote_str sp.CssSpec.so_paths) ^ ")";
-             etoks_s sp.CssSpec.so_normal; etoks_s sp.CssSpec.so_low ])
+             etoks_s sp.CssSpec.so_normal; etoks_s sp.CssSpec.so_low;
+             nums_s (sp.CssSpec.so_normal @ sp.CssSpec.so_low) ])
     | _ -> "ERR args");
   (* css_num kind sign int bits -> printed text *)
   register "css_num" (function
